@@ -26,6 +26,18 @@ import Driver.Util
   pipeline leaves (`deliver_to &inner`).  Supported (otherwise `bad-op`): the outer pipeline's own
   targets do not refuse (kind `n`), no inner verdict is a reject, inner DMARC is not `rej` — so the
   inner pipeline never refuses MAIL/RCPT and only its targets can refuse the body.
+`multi <dmarc> <global> <targets> <sources> <schedule> // <tx> // <tx> …`
+  several transactions on ONE pipeline object (built by the real configuration parser), their
+  commands interleaved: `sources` = `_`-separated source blocks `<checks>~<blocks>` (blocks as in `run`;
+  the last one is `default_source`, source k < last is `source s<k>.example`), `schedule` = one digit
+  per command: the transaction whose next command (MAIL, the next RCPT, DATA) is issued;
+  `<tx>` = `<mode> <source index><sender form>[Q] <rcpts> <scripts> <delays>`: sender form n (plain
+  address of the source's domain) | z (null reverse-path `<>`; only the default source can be meant) |
+  i (IDN domain) | q (quoted local part) | u (upper-case spelling); scripts and delays are the
+  verdicts / completion orders for THIS message (all checks of the pipeline).  The model runs
+  `multi` (every command acts on its own transaction only): output = the observations of the
+  transactions in order, ` || `-separated (`open` for one whose commands were not all issued).
+  A `run` op may end in `f=<form>` (the sender form; the model does not look at the sender).
 `apply <raw> <act>` → the result of FailAction.Apply and what the runner does with it
 -/
 namespace Driver.C06
@@ -311,6 +323,51 @@ def showNest (m : Mode) (cfgO : Cfg) (nO : Nat) (ordO : Ord) (rsO : List Rcpt) (
   s!"start={startS} rcpt={rcptS} body={bodyS} st={stS} q={b01 finalQ} del={delS} log=" ++
     showLog nO keep obO.final.cr.done ++ " || in: " ++ innerS
 
+
+/-- Token list split at the `//` tokens. -/
+def splitTx : List String → List (List String)
+  | [] => [[]]
+  | t :: rest =>
+    match splitTx rest with
+    | [] => [[t]]
+    | g :: gs => if t == "//" then [] :: g :: gs else (t :: g) :: gs
+
+/-- `<checks>~<blocks>` -/
+def parseSource (s : String) : Option (String × String) :=
+  match s.splitOn "~" with
+  | [c, b] => some (c, b)
+  | _ => none
+
+/-- `<source index><form>[Q]` -/
+def parseWho (s : String) (nSrc : Nat) : Option (Nat × Bool) :=
+  match s.toList with
+  | [k, f] => who k f false
+  | [k, f, 'Q'] => who k f true
+  | _ => none
+where who (k f : Char) (q : Bool) : Option (Nat × Bool) :=
+  if !k.isDigit then none else
+  let i := k.toNat - '0'.toNat
+  if i ≥ nSrc then none else
+  if !("nziqu".toList.contains f) then none else
+  -- `source` rules cannot match the null reverse-path: it is handled by the default source
+  if f == 'z' && i + 1 != nSrc then none else some (i, q)
+
+def parseTx (dm g : String) (ts : List Tgt) (srcs : List (String × String)) (toks : List String) :
+    Option (TxIn × Nat) :=
+  match toks with
+  | [mode, who, rcpts, scripts, delays] => do
+    let m ← if mode == "smtp" then some Mode.smtp else if mode == "lmtp" then some Mode.lmtp else none
+    let (si, q0) ← parseWho who srcs.length
+    let src ← srcs[si]?
+    let (cfg, n, rs, ord, _) ← parseCfg dm g src.1 src.2 scripts delays rcpts ts q0
+    pure (⟨ord, cfg, m, rs.map (fun p => p.1)⟩, n)
+  | _ => none
+
+def showTx (p : TxIn × Nat) (st : TxSt) : String :=
+  match st with
+  | .closed ob => showObs p.1.m p.1.cfg p.2 ob
+  | _ => "open"
+
 def showEff : Eff → String
   | .none => "none" | .quar => "quar" | .rej => "rej"
 
@@ -318,6 +375,11 @@ def handle : List String → String
   | "run" :: mode :: dm :: g :: s :: blocks :: tgts :: rcpts :: scripts :: delays :: flag =>
     let r : Option String := do
       let m ← if mode == "smtp" then some Mode.smtp else if mode == "lmtp" then some Mode.lmtp else none
+      -- the sender form (`f=…`, last token) is not an input of the model
+      let flag ← match flag.getLast? with
+        | some x => if x.startsWith "f=" then
+            (if ["f=n", "f=z", "f=i", "f=q", "f=u"].contains x then some flag.dropLast else none) else some flag
+        | none => some flag
       let (q0, mf) ← match flag with
         | [] => some (false, MFaults.none)
         | ["Q"] => some (true, MFaults.none)
@@ -342,6 +404,18 @@ def handle : List String → String
         | some p => p.2
         | none => false
       pure (showNest m cfgO nO ordO (rsO.map (fun p => p.1)) isNest cfgI nI ordI)
+    r.getD "bad-op"
+  | "multi" :: dm :: g :: tgts :: sources :: sched :: "//" :: rest =>
+    let r : Option String := do
+      let ts ← (tgts.splitOn ",").mapM parseTgt
+      let srcs ← (sources.splitOn "_").mapM parseSource
+      let txs ← (splitTx rest).mapM (parseTx dm g ts srcs)
+      let sch ← sched.toList.mapM (fun ch => if ch.isDigit then some (ch.toNat - '0'.toNat) else none)
+      if !(sch.all (fun i => i < txs.length)) then none else
+      -- every transaction has the same number of checks (one pipeline)
+      if !(txs.all (fun p => some p.2 == (txs.head?.map (fun q => q.2)))) then none else
+      let sts := multi (txs.map (fun p => p.1)) sch
+      pure (" || ".intercalate ((txs.zip sts).map (fun x => showTx x.1 x.2)))
     r.getD "bad-op"
   | ["remote", qr, qb, _path] =>
     if (qr != "0" && qr != "1") || (qb != "0" && qb != "1") then "bad-op" else
